@@ -58,6 +58,8 @@ def fam_cancel(E, real=False, with_delay=True, twice_modes=3, cleanup=False):
     box = []
     err = UserErr('victim failed')
     tok1, tok2 = object(), object()
+    if cleanup and E.flag('same_token'):
+        tok2 = tok1          # repeated cancel() with an equal token (e.g. plain cancel() twice)
     outer_box = []
 
     async def victim():
